@@ -77,6 +77,7 @@ CHECKS["C05"] = {
     "parts": [
         {"part": "history", "pkg": REC, "test": "TestVerif_C05_History", "quick": 4000, "thorough": 30000},
         {"part": "interleave", "pkg": REC, "test": "TestVerif_C05_Interleave", "quick": 600, "thorough": 8000},
+        {"part": "node", "pkg": "./", "test": "TestVerif_C05_Node", "quick": 400, "thorough": 6000},
     ],
 }
 
